@@ -49,6 +49,9 @@ def for_menu(n):
         ('"', ("badquote",)),
         ('"x', ("badquote",)),
         ('x"', ("badquote",)),
+        (f'"1.1.1.{n}"x"', ("badquote",)),
+        ('""x"', ("badquote",)),
+        (f'"1.1.1.{n}" "x"', ("badquote",)),
         ('"a\\"b.{0}"'.format(n), ("addr", f'a"b.{n}', None)),
         (f" 1.1.1.{n} ", ("padded", f"1.1.1.{n}", None)),
         (f"unknown{n}", ("addr", f"unknown{n}", None)),
@@ -68,15 +71,16 @@ def host_menu(n):
         (":", ("emptyhost",)),
         ('"', ("badquote",)),
         ('"h', ("badquote",)),
+        (f'"h{n}.example"x"', ("badquote",)),
         (f" h{n}.example ", ("padded", f"h{n}.example", None)),
     ]
 
 
 PROTO_MENU = [
     ("http", ("proto", "http")), ("https", ("proto", "https")), ("HTTPS", ("proto", "https")), ('"https"', ("proto", "https")),
-    ("ftp", ("badproto",)), ("", ("empty",)), ('"', ("badquote",)), ("h", ("badproto",)), ("http, https", ("multi",)), ("https,https", ("multi",)),
+    ("ftp", ("badproto",)), ("", ("empty",)), ('"', ("badquote",)), ("h", ("badproto",)), ("http, https", ("multi",)), ("https,https", ("multi",)), ('"https"s"', ("badquote",)),
 ]
-PORT_MENU = [("8443", ("port", "8443")), ('"8443"', ("port", "8443")), ("", ("empty",)), ("1, 2", ("multi",)), ('"', ("badquote",)), ("x", ("port", "x"))]
+PORT_MENU = [("8443", ("port", "8443")), ('"8443"', ("port", "8443")), ("", ("empty",)), ("1, 2", ("multi",)), ('"', ("badquote",)), ("x", ("port", "x")), ('"80"80"', ("badquote",))]
 
 _envs = {}
 
@@ -195,7 +199,7 @@ def cases(tier):
                 yield dict(kind="fwd-missing", tph=("forwarded",), count=count, headers=[("Forwarded", ", ".join(lst))], L=L, miss=miss)
             # one odd element at each position
             odd_elems = [
-                ("for=:80", "degenerate"), ("for=[", "degenerate"), ('for="', "400"), ("for", "400"), ("=x", "unspecified"), ("for =1.1.1.1", "400"), ("for= 1.1.1.1", "400"),
+                ("for=:80", "degenerate"), ("for=[", "degenerate"), ('for="', "400"), ('for="1.1.1.9"x"', "400"), ('host="h9.example" "x"', "400"), ("for", "400"), ("=x", "unspecified"), ("for =1.1.1.1", "400"), ("for= 1.1.1.1", "400"),
                 ("for=1.1.1.1 ;host=h", "400"), ("proto=ftp", "badproto"), ("host=", "unspecified"), ("host=:80", "emptyhost"), ("for=\"[2001:db8::9]:809\"", "ok6"), ("FOR=1.1.1.9;Host=H9.example;PROTO=HTTPS", "okcase"),
                 (";;for=1.1.1.9;;", "ok"), ("", "unspecified"), ("secret=1", "unspecified"), ('host="a\\"b"', "unspecified"), ("for=_hidden", "ok"), ("for=unknown", "ok"), ("for=.:", "degenerate"), ("for=[]", "degenerate"), ("for=[]:1", "degenerate"),
             ]
